@@ -90,6 +90,29 @@ CHECKS.update({
         ref="5/C19"),
 })
 
+CHECKS.update({
+    "C04": dict(
+        technique="TLA+ spec of pairing-reply handling (transport type filter, step-number check, error mapping; spec/pairing/HapErrors.tla) model-checked by TLC over every (step, transport, reply) cell; every cell replayed on the real generators, the IP/CoAP/BLE drivers and add/remove pairing; observations validated by HapErrors_Trace",
+        text="TLC checks ErrorNeverSuccess / WrongStateNeverSuccess / OutcomeAllowed / SuccessOnlyClean exhaustively over 20,160 cells (9 steps x transports x 9 State values x 12 Error values x every subset of the step's fields x RetryDelay absent, last or before the Error). Each cell runs on the real code and the observed exception class or return must lie in the specification's Allowed set. The space is enumerated completely in both tiers.",
+        note="Trusted: TLC, harness/refacc, SimNet and the virtual-time loop, the fake CoAP context and GATT client. Items of types HAP does not define for the reply, placed before the Error item, are outside the claim. BLE add/remove pairing is exercised with _async_request scripted.",
+        ref="5/C04"),
+    "C01": dict(
+        technique="symbolic Dolev-Yao TLA+ model of pair-verify and pair-resume (spec/pairing/PairVerify.tla) model-checked by TLC; TLC-exported reply descriptions with the spec's verdict concretised with real keys by an independent reference accessory/attacker and run on get_session_keys and the IP/CoAP/BLE drivers; executions validated by PairVerify_Trace",
+        text="TLC checks AuthOnlyAuthentic / ResumeOnlyWithSecret / FailureYieldsNoKeys / NoForgeryAccepted / KeysAgree / ProofAccepted over 85,872 full-exchange and 1,296 resumption reply descriptions. Every case in thorough (near misses plus a 1/20 sample in quick), including all single-bit and single-byte corruptions and truncations of the honest reply, is run on the real code: a reply the spec rejects must raise, yield no keys and must not trigger the controller's proof M3; accepted exchanges must yield read/write/event keys equal to the reference accessory's, and the reference accessory must accept the controller's proof.",
+        note="Ideal cryptography in the model; bit-level coverage comes from the concretiser. Any Exception counts as failure, the class is left to C04. Replies whose used values are authentic although the wire differs may be accepted. Trusted: TLC, harness/refacc, simulated transports.",
+        ref="5/C01"),
+    "C03": dict(
+        technique="symbolic TLA+ model of pair-setup with SRP abstracted (spec/pairing/PairSetup.tla) model-checked by TLC; exported M2/M4/M6 reply sequences concretised by an independent SRP-6a server and real Ed25519/AEAD and run on perform_pair_setup_part1/part2 and the IP/CoAP/BLE drivers; executions validated by PairSetup_Trace",
+        text="TLC checks SetupOnlyAuthenticated / RecordConsistent / M5Accepted / FailureReturnsNothing / NoCodeNoPairing over all modelled reply sequences (15,173 M6 variants). Every sequence in thorough (near misses plus a sample in quick), with bit/byte corruptions of salt, server key, proof and every M6 field, is run on the real code: rejected sequences must raise, return nothing and send no M3/M5 after a bad M2/proof; returned records must be self-consistent and the reference accessory must accept M5.",
+        note="SRP numerics are not claimed (C02); honest runs are cross-checked against the independent SRP server. Ideal cryptography. BleDiscovery connection handling is not exercised. Trusted: TLC, harness/refacc, simulated transports.",
+        ref="5/C03"),
+    "C20": dict(
+        technique="TLA+ spec of a save as the sequence of file-system calls with Crash between any two calls and Restart as a fresh loader (spec/persist/Persistence.tla), model-checked by TLC; the calls of the real save_data / CharacteristicCacheFile are recorded at the open/write/flush/close/fsync/replace boundary and checked by TLC against Persistence_Trace; every crash image and cache corruption TLC exports is materialised and loaded by a fresh Controller / CharacteristicCacheFile",
+        text="TLC checks RoundTrip, CrashSafePairings and CacheCorruptionIsCold exhaustively for three successive saves with restarts in between and must find the loss for in-place and rename-before-flush procedures. The same invariants are checked on the call sequences recorded from the real code for seeded worlds (IP/BLE/CoAP pairings, unicode aliases, optional fields, random and fixture accessory databases, recovery after a crash). Every enumerated disk image (every byte up to 4 KiB, boundary classes above, 8 junk classes) must load to an outcome the specification allows, and the controller projection after restart must equal the one before (TLC structural equality).",
+        note="Trusted: TLC, the call recorder (self-checked by comparing the model's final image with the real directory), stdlib json as the independent reader. Assumes in-order application of file-system calls (process-crash model); a first-ever interrupted save is unconstrained.",
+        ref="5/C20"),
+})
+
 NOT_APPLICABLE = {
     "C02": "Byte-for-byte numeric equality of SRP-6a over a 3072-bit group with SHA-512: no state, schedule or history to model, TLC integers are 32-bit; a TLA+ transcription over a toy group would say nothing about the hard-coded constants. See DESIGN.md section 5/C02.",
 }
